@@ -236,7 +236,8 @@ def _retyped_cells(inputs):
     if not inputs:
         return ids, sources
     b, l, r = inputs
-    for side in (l, r):
+    base_ids = {c.get('id') for c in b.get('cells', [])}
+    for side, other in ((l, r), (r, l)):
         byid = {c.get('id'): c for c in side.get('cells', []) if c.get('id') is not None}
         for k, c in enumerate(b.get('cells', [])):
             o = byid.get(c.get('id')) if c.get('id') is not None else None
@@ -246,6 +247,13 @@ def _retyped_cells(inputs):
                 ids.add(c.get('id'))
                 sources.add(c.get('source'))
                 sources.add(o.get('source'))
+                # the other side may have changed the cell so far that it carries a new id there (same position, the base id gone):
+                # nbdime still aligns the two, and the merged cell then goes by the other side's id
+                oc = other.get('cells', [])
+                if c.get('id') is not None and all(x.get('id') != c.get('id') for x in oc) and len(oc) == len(b.get('cells', [])) \
+                        and oc[k].get('id') is not None and oc[k].get('id') not in base_ids:
+                    ids.add(oc[k].get('id'))
+                    sources.add(oc[k].get('source'))
     return ids, sources
 
 
